@@ -170,12 +170,21 @@ def gen_program(rng):
         else:
             parent_params = levels[-1]['params']
             if parent_params:
-                mode = rng.choice(('bind', 'forward', 'redeclare', 'partial', 'swap', 'plain', 'explicit-new-only'))
+                mode = rng.choice(('bind', 'forward', 'redeclare', 'partial', 'swap', 'plain', 'explicit-new-only', 'nested', 'nested'))
                 if mode == 'plain':
                     lv['base_args'], lv['params'], lv['explicit'] = None, list(parent_params), False
                 elif mode == 'bind':
                     lv['base_args'] = [rng.choice(CONCRETE) for _ in parent_params]
                     lv['params'], lv['explicit'] = [], False
+                elif mode == 'nested':
+                    # the new variables sit INSIDE the arguments: class ListBox(Box[List[U]]), class Multi(Pair[K, Dict[str, V]])
+                    newv = rng.sample(['T', 'U', 'V', 'W'], len(parent_params))
+                    wraps = [rng.choice(('list', 'dict', 'opt', 'bare', 'tupint')) for _ in newv]
+                    if all(w == 'bare' for w in wraps):
+                        wraps[0] = 'list'
+                    lv['base_args'] = [{'list': ('list', ('tv', v)), 'dict': ('dict', ('tv', v)), 'opt': ('opt', ('tv', v)), 'bare': ('tv', v),
+                                        'tupint': ('tup', ('int',), ('tv', v))}[w] for v, w in zip(newv, wraps)]
+                    lv['params'], lv['explicit'] = list(dict.fromkeys(newv)), False
                 elif mode == 'forward':
                     newv = rng.sample(['T', 'U', 'V', 'W'], len(parent_params))
                     lv['base_args'] = [('tv', v) for v in newv]
@@ -241,8 +250,13 @@ def gen_program(rng):
         # options
         if rng.random() < 0.35:
             lv['opts']['in_format'] = rng.choice((('struct',), ('struct', 'tuple'), ('tuple', 'struct')))
-        if rng.random() < 0.2:
+        r_ = rng.random()
+        if r_ < 0.2:
             lv['opts']['rename'] = rng.choice(STYLES)
+        elif r_ < 0.3:
+            lv['opts']['out_rename'] = rng.choice(STYLES)        # one direction only: the other direction stays as inherited
+        elif r_ < 0.38:
+            lv['opts']['in_rename'] = rng.choice(STYLES)
         if rng.random() < 0.2:
             lv['opts']['out_format'] = rng.choice(('struct', 'tuple', 'tuple'))    # the output layout alone: the inherited input layouts stay
         if rng.random() < 0.2:
@@ -263,7 +277,8 @@ def gen_program(rng):
 def resolve(levels):
     """Effective fields (ordered), options and parameters of the leaf class."""
     fields = {}          # name -> dict(ty, has_default, default, kw)
-    opts = {'in_format': ('struct',), 'out_format': 'struct', 'rename': None, 'allow_extra': False, 'frozen': True, 'kw_only': False}
+    opts = {'in_format': ('struct',), 'out_format': 'struct', 'rename': None, 'in_style': None, 'out_style': None, 'allow_extra': False, 'frozen': True,
+            'kw_only': False}
     params = []
     for lv in levels:
         if lv['base_args'] is not None:
@@ -272,6 +287,12 @@ def resolve(levels):
                 f['ty'] = subst(f['ty'], m)
         params = list(lv['params'])
         opts.update(lv['opts'])
+        if 'rename' in lv['opts']:
+            opts['in_style'] = opts['out_style'] = lv['opts']['rename']
+        if 'in_rename' in lv['opts']:
+            opts['in_style'] = lv['opts']['in_rename']
+        if 'out_rename' in lv['opts']:
+            opts['out_style'] = lv['opts']['out_rename']
         seen_marker = False
         own_index = 0
         for f in lv['fields']:
@@ -468,8 +489,10 @@ def run(ctx):
                     break
         if len(data) != len(tys):
             return
-        style = opts['rename']
+        style = opts['in_style']
+        out_style = opts['out_style']
         key = (lambda n: model.style_name(n, style)) if style else (lambda n: n)
+        okey = (lambda n: model.style_name(n, out_style)) if out_style else (lambda n: n)
         mapping = {key(n): v for n, v in data.items()}
         out = observe(final.from_data, mapping)
         ctx.count('substituted_field_conversions')
@@ -528,10 +551,12 @@ def run(ctx):
         if od.kind != 'value' or (opts['out_format'] == 'struct') != is_map or (opts['out_format'] == 'tuple') != is_seq:
             ctx.violation('options-inherited', 'main', i, {**wit0, 'option': 'out_format', 'effective': opts['out_format'], 'into_data': od.brief()}, mech='inherited-out_format')
             return
-        if style and opts['out_format'] == 'struct':
+        if opts['out_format'] == 'struct':
             od = observe(inst.into_data)
-            if od.kind != 'value' or [k_ for k_ in od.val.keys() if k_ != key('probe_f')] != [key(n) for n, f in exp_fields if f['ty'] is not None]:
-                ctx.violation('options-inherited', 'main', i, {**wit0, 'option': 'rename', 'effective': style, 'into_data': od.brief()}, mech='inherited-rename')
+            ctx.count('rename_direction_checks')
+            if od.kind != 'value' or [k_ for k_ in od.val.keys() if k_ != okey('probe_f')] != [okey(n) for n, f in exp_fields if f['ty'] is not None]:
+                ctx.violation('options-inherited', 'main', i, {**wit0, 'option': 'rename / out_rename', 'effective_output_style': out_style, 'into_data': od.brief()},
+                              mech='inherited-rename')
                 return
         st = observe(setattr, inst, exp_fields[0][0], getattr(inst, exp_fields[0][0]))
         if (st.kind == 'value') == bool(opts['frozen']):
